@@ -466,6 +466,17 @@ pub fn exec(c: &mut Case, real: &mut BinArchive, model: &mut RefArchive, op: &Op
             c.fail("bounds", &format!("wrong_accept:{}", opname), ctx(&format!("range is not inside the data, expected an error, got Ok({:?})", v)));
             ok = false;
         }
+        (Some(false), Err(e)) => {
+            // the refusal of a value access is the out-of-bounds error, not some other kind
+            if matches!(op, Op::Read(..) | Op::Write(..)) {
+                if e.starts_with("Out of bounds address") {
+                    c.outcome("refused_with_the_out_of_bounds_error");
+                } else {
+                    c.fail("bounds", &format!("wrong_error_kind:{}", opname), ctx(&format!("range is not inside the data: refused, but with Err({}) instead of the out-of-bounds error", e)));
+                    ok = false;
+                }
+            }
+        }
         _ => {}
     }
     // value
